@@ -31,6 +31,11 @@ type syncScenario struct {
 const futureDL = 10 * time.Second
 
 func execSync(t *testing.T, tr *vrt.Tracer, sc syncScenario, ex *vrt.Explorer) {
+	stopWD := vrt.Watchdog(120*time.Second, func() {
+		tr.Close()
+		panic("verif: the run does not come to rest: a goroutine waits for a lock whose holder is blocked (recorded up to the last rest point)")
+	})
+	defer stopWD()
 	synctest.Test(t, func(t *testing.T) {
 		b := packetio.NewBuffer()
 		s := vrt.NewSched(synctest.Wait)
@@ -41,11 +46,15 @@ func execSync(t *testing.T, tr *vrt.Tracer, sc syncScenario, ex *vrt.Explorer) {
 		inflightOp := map[int]string{}
 		var wg sync.WaitGroup
 		var nextID uint32 = 1
-		over := false // set at quiescence: what happens afterwards is clean-up, not part of the history
+		over := false             // set at quiescence: what happens afterwards is clean-up, not part of the history
+		gidOf := map[uint64]int{} // goroutine -> client
 		for ci, ops := range sc.Clients {
 			wg.Add(1)
 			go func(ci int, ops []syncOp) {
 				defer wg.Done()
+				mu.Lock()
+				gidOf[vrt.Goid()] = ci
+				mu.Unlock()
 				for oi, op := range ops {
 					pid := ci*10 + oi
 					vrt.Yield("client")
@@ -131,7 +140,16 @@ func execSync(t *testing.T, tr *vrt.Tracer, sc syncScenario, ex *vrt.Explorer) {
 			if n == 0 {
 				break
 			}
-			k := ex.Choose(n)
+			var k int
+			if ex.Mode != "" {
+				var ok bool
+				if k, ok = directed(ex, sc, parked, gidOf, &mu); !ok {
+					break
+				}
+				ex.Force(len(parked), k)
+			} else {
+				k = ex.Choose(n)
+			}
 			if k < len(parked) {
 				s.Release(parked[k])
 
@@ -158,6 +176,75 @@ func execSync(t *testing.T, tr *vrt.Tracer, sc syncScenario, ex *vrt.Explorer) {
 		_ = b.SetReadDeadline(time.Now().Add(-time.Second))
 		wg.Wait()
 	})
+}
+
+// directed picks the next goroutine in the two directed schedules.
+//
+//	probe: the clients run one after the other, each until it blocks or finishes; the number of
+//	       gates a client passes before that is remembered.
+//	brink: every client that starts with a Read is taken to the last gate before it would block
+//	       (it has seen the buffer empty and released the lock, but does not wait yet), then all other
+//	       clients run to completion, then the readers continue. This is the window the wake-up
+//	       protocol exists for; enumeration reaches it late and random schedules only by luck.
+func directed(ex *vrt.Explorer, sc syncScenario, parked []*vrt.Waiter, gidOf map[uint64]int, mu *sync.Mutex) (int, bool) {
+	if len(parked) == 0 {
+		return 0, false
+	}
+	mu.Lock()
+	defer mu.Unlock()
+	client := func(w *vrt.Waiter) int {
+		if c, ok := gidOf[w.Gid]; ok {
+			return c
+		}
+
+		return -1 // a goroutine of the code under test (timer callback)
+	}
+	if ex.Mode == "probe" {
+		if ex.Gates == nil {
+			ex.Gates = map[int]int{}
+		}
+		// lowest client first; every release of a client that has not been seen blocked yet counts
+		best := 0
+		for i, w := range parked {
+			if client(w) >= 0 && (client(parked[best]) < 0 || client(w) < client(parked[best])) {
+				best = i
+			}
+		}
+		c := client(parked[best])
+		if c >= 0 {
+			// clients below c are no longer parked: they blocked or finished; freeze their counts
+			for d := 0; d < c; d++ {
+				if _, ok := ex.Gates[-1-d]; !ok {
+					ex.Gates[-1-d] = 1 // marker: client d is done counting
+				}
+			}
+			if _, frozen := ex.Gates[-1-c]; !frozen {
+				ex.Gates[c]++
+			}
+		}
+
+		return best, true
+	}
+	// brink
+	isReader := func(c int) bool { return c >= 0 && len(sc.Clients[c]) > 0 && sc.Clients[c][0].Op == "R" }
+	// phase A: a reader that has not reached the brink yet
+	for i, w := range parked {
+		c := client(w)
+		if isReader(c) && ex.Gates[1000+c] < ex.Gates[c]-1 {
+			ex.Gates[1000+c]++
+
+			return i, true
+		}
+	}
+	// phase B: anybody who is not a reader (lowest first; also timer callbacks)
+	for i, w := range parked {
+		if !isReader(client(w)) {
+			return i, true
+		}
+	}
+
+	// phase C: the readers
+	return 0, true
 }
 
 // TestVerifBufferSync enumerates schedules (depth-first, then seeded random) of every
@@ -187,6 +274,14 @@ func TestVerifBufferSync(t *testing.T) {
 			}
 		}
 		dfs := ex.Runs
+		// directed schedules: probe, then readers to the brink / others / readers
+		dex := &vrt.Explorer{Mode: "probe"}
+		dex.Begin()
+		execSync(t, tr, sc, dex)
+		dex.Mode = "brink"
+		dex.Begin()
+		execSync(t, tr, sc, dex)
+		dfs += 2
 		nr := 0
 		if !exhausted {
 			rex := &vrt.Explorer{Random: true, Rng: rng}
